@@ -358,6 +358,21 @@ impl Context {
 
             parent = task.parent();
         }
+
+        // close the tasks that are still open in the other branches
+        let mut tasks = self.proc.tasks();
+        tasks.sort_by(|a, b| a.timestamp.cmp(&b.timestamp));
+        for t in tasks {
+            if t.state().is_completed() {
+                continue;
+            }
+            if t.state().is_running() {
+                t.set_state(TaskState::Aborted);
+            } else {
+                t.set_state(TaskState::Skipped);
+            }
+            ctx.emit_task(&t)?;
+        }
         Ok(())
     }
 
